@@ -33,12 +33,16 @@
 EXTENDS Naturals, Sequences, FiniteSets
 
 \* ------------------------------------------------------------ image universe
-MT == [A |-> "ociman", B |-> "dockerman", C |-> "ociman", X |-> "ociindex", Xa |-> "ociman",
+\* D: an OCI manifest whose body has no mediaType field (the registry's Content-Type says what it
+\* is).  H: an image that target side repositories hold with one layer missing ("holed": its
+\* tuples there have complete = 0) until a copy from the source brings the layer along.
+MT == [A |-> "ociman", B |-> "dockerman", C |-> "ociman", D |-> "ociman", H |-> "ociman", X |-> "ociindex", Xa |-> "ociman",
        Xb |-> "ociman", Y |-> "dockerlist", Ya |-> "dockerman", Yb |-> "dockerman",
        S |-> "ociman", R |-> "ociman"]
 Kids == [X |-> [amd64 |-> "Xa", arm64 |-> "Xb"], Y |-> [amd64 |-> "Ya", arm64 |-> "Yb"]]
 \* the same table in the shape the driver derives it from the concrete bytes (trace header)
 ImgTable == << <<"A", "ociman", "", "">>, <<"B", "dockerman", "", "">>, <<"C", "ociman", "", "">>,
+               <<"D", "ociman", "", "">>, <<"H", "ociman", "", "">>,
                <<"R", "ociman", "", "">>, <<"S", "ociman", "", "">>, <<"X", "ociindex", "Xa", "Xb">>,
                <<"Xa", "ociman", "", "">>, <<"Xb", "ociman", "", "">>, <<"Y", "dockerlist", "Ya", "Yb">>,
                <<"Ya", "dockerman", "", "">>, <<"Yb", "dockerman", "", "">> >>
@@ -126,10 +130,12 @@ First(checks) == IF \E i \in 1..Len(checks) : checks[i][1]
 OverwriteBad(conf, before, cur, r, img) ==
   LET owners == {p \in Live(conf, before) : TRef(p) = r /\ HasBackup(conf.entries[p.k])}
       o == Img(cur, r)
-  IN IF o # "" /\ o # img /\ owners # {} /\
+  IN IF o # "" /\ o # img /\ owners # {} /\ Compl(cur, r) = 1 /\
         ~\E p \in owners : LET b == BackupRef(conf.entries[p.k], p) IN Img(cur, b) = o /\ Compl(cur, b) = 1
      THEN "backup: tag overwritten while its previous image is not under the backup name"
      ELSE ""
+\* (an image that was already incomplete at the target cannot be made available anywhere: the
+\* backup obligation is demanded for previous images that were complete)
 
 \* a tag that differs after the run (or was written during it) must be one the run had to write
 TagExplained(conf, L, before, after, r) ==
@@ -148,15 +154,18 @@ DestRepos(conf, L, before) ==
 \* obligations at the end of a run.  puts: set of references written during the run
 EndBad(conf, mode, exit, before, after, puts, nwr, nmut) ==
   LET L == Live(conf, before)
-      touched == {r \in Refs(before) \cup Refs(after) \cup puts :
-                    Img(before, r) # Img(after, r) \/ Compl(before, r) # Compl(after, r) \/ r \in puts}
+      touched == {r \in Refs(before) \cup Refs(after) \cup puts : Img(before, r) # Img(after, r) \/ r \in puts}
+      \* C03: a target that already equals the source is trusted to be complete unless a recursive
+      \* copy is requested (fastCheck overrides forceRecursive), then its content is completed as well
+      trusted(p) == /\ Img(after, TRef(p)) = Img(before, TRef(p)) /\ Compl(before, TRef(p)) = 0
+                    /\ (~conf.entries[p.k].force \/ conf.entries[p.k].fastCheck)
       excl == UNION {Excluded(conf.entries[k], k, before) : k \in DOMAIN conf.entries}
   IN First(<<
        <<mode = "check" /\ (nwr # 0 \/ nmut # 0 \/ after # before),
          "check: a check-only run wrote to a registry">>,
        <<exit = 0 /\ mode = "once" /\ \E p \in L : Img(after, TRef(p)) \notin Acceptable(conf, before, p),
          "mirror: a selected source tag is not at the target with the source (platform) digest">>,
-       <<exit = 0 /\ mode = "once" /\ \E p \in L : Compl(after, TRef(p)) # 1,
+       <<exit = 0 /\ mode = "once" /\ \E p \in L : Compl(after, TRef(p)) # 1 /\ ~trusted(p),
          "mirror: a mirrored image is incomplete at the target">>,
        <<exit = 0 /\ \E r \in touched \cap excl : ~TagExplained(conf, L, before, after, r),
          "untouched: a tag excluded by the filters was written">>,
@@ -164,7 +173,7 @@ EndBad(conf, mode, exit, before, after, puts, nwr, nmut) ==
          "untouched: a tag outside the selection was written">>,
        <<\E p \in L : LET e == conf.entries[p.k]
                           b == Img(before, TRef(p))
-                      IN /\ HasBackup(e) /\ b # "" /\ Img(after, TRef(p)) # b
+                      IN /\ HasBackup(e) /\ b # "" /\ Img(after, TRef(p)) # b /\ Compl(before, TRef(p)) = 1
                          /\ BkOwners(conf, L, before, BackupRef(e, p)) = {p}
                          /\ (Img(after, BackupRef(e, p)) # b \/ Compl(after, BackupRef(e, p)) # 1),
          "backup: the overwritten image is not under the backup name after the run">> >>)
